@@ -223,6 +223,28 @@ def impl_slots(case):
         for l in case["requests"]:
             r, d = get_unique_label(l, d); out.append(r)
         return dict(out=out, table=[[k, v] for k, v in d.items()])
+    if case["kind"] == "solver":
+        # BaseBackend._validate_solver / _solve on a stub: which integrator method is called, or which exception is raised
+        from pyrates.backend.base.base_backend import BaseBackend, DDEHistory
+        import numpy as np
+        called = []
+        class Stub:
+            SUPPORTED_SOLVERS = BaseBackend.SUPPORTED_SOLVERS
+            _validate_solver = BaseBackend._validate_solver
+            def __getattr__(self, name):
+                if name.startswith("_solve_"):
+                    return lambda *a, **k: called.append(name)
+                raise AttributeError(name)
+        args = (DDEHistory(np.zeros(1), 0.0),) if case["dde"] else ()
+        try:
+            BaseBackend._validate_solver(Stub(), case["s"]); val = True
+        except Exception:
+            val = False
+        try:
+            BaseBackend._solve(Stub(), case["s"], None, args, 1.0, 0.1, 0.1, np.zeros(1), 0, None)
+        except Exception:
+            called.append(None)
+        return dict(valid=val, called=called[0] if called else None)
     if case["kind"] == "indexed":
         from pyrates.ir.circuit import _get_indexed_var_str
         d = {}
@@ -665,6 +687,7 @@ From PV Require Import PyLib Auto Corr.
 E2_IMPORT
 E2_IMPREL
 E2_IMPIDX
+E2_IMPSOL
 Definition prod_eq_dec {A B} (da : forall x y : A, {x = y} + {x <> y}) (db : forall x y : B, {x = y} + {x <> y}) : forall x y : A * B, {x = y} + {x <> y}.
 Proof. decide equality. Defined.
 Import ListNotations.
@@ -678,6 +701,7 @@ E2_LB2
 E2_REPL
 E2_RELB
 E2_IDXB
+E2_SOLB
 """
 
 E2_GEN = ("From PVG Require Import Gen_auto_param_indices.",
@@ -697,23 +721,29 @@ E2_IDX = ("From PVG Require Import Gen_get_indexed_var_str.",
           "Definition ok_idx (c : string * list Z * Z * bool * string * option string * list (string * list Z)) := let '(v, ix, n, rd, s, o, rec) := c in\n"
           "  match get_indexed_var_str [] v ix n rd s, o with\n  | Some (x, r), Some y => String.eqb x y && (if list_eq_dec (prod_eq_dec string_dec (list_eq_dec Z.eq_dec)) r rec then true else false)\n"
           "  | None, None => true | _, _ => false end.")
+E2_SOL = ("From PVG Require Import Gen_validate_solver Gen_solve_dispatch.",
+          "Definition ok_sol (c : string * bool * bool * option string) := let '(s, dde, valid, called) := c in\n"
+          "  Bool.eqb (match validate_solver s with Some _ => true | None => false end) valid &&\n"
+          "  match solve_dispatch s dde, called with Some x, Some y => String.eqb x y | None, None => true | _, _ => false end.")
 E2_LAB = ("From PVG Require Import Gen_generate_unique_label.\nFrom PV Require Import LabelGen.",
           "Definition ok_lab (c : dict * list string * list string * list string) := let '(tab, req, out, keys) := c in\n"
           "  match requests tab req with Some (rs, tab') => sl_eqb rs out && sl_eqb (py_keys tab') keys | None => false end.")
 
 def header_e2(ctx):
-    ok, failed, log = build_coq(["LabelGen", "Gen_get_unique_label", "Gen_replace", "Gen_relabel_var", "Gen_get_indexed_var_str"])   # LabelGen.v = Gen_generate_unique_label + the request state machine
+    ok, failed, log = build_coq(["LabelGen", "Gen_get_unique_label", "Gen_replace", "Gen_relabel_var", "Gen_get_indexed_var_str", "Gen_solve_dispatch"])   # LabelGen.v = Gen_generate_unique_label + the request state machine
     lab2 = not any(f.endswith("Gen_get_unique_label.v") for f in failed)
     repl = not any(f.endswith("Gen_replace.v") for f in failed)
     rel = not any(f.endswith("Gen_relabel_var.v") for f in failed)
     ixd = not any(f.endswith("Gen_get_indexed_var_str.v") for f in failed)
-    lab = not [f for f in failed if not f.endswith(("Gen_get_unique_label.v", "Gen_replace.v", "Gen_relabel_var.v", "Gen_get_indexed_var_str.v"))]
+    sol = not any(f.endswith(("Gen_solve_dispatch.v", "Gen_validate_solver.v")) for f in failed)
+    lab = not [f for f in failed if not f.endswith(("Gen_get_unique_label.v", "Gen_replace.v", "Gen_relabel_var.v", "Gen_get_indexed_var_str.v", "Gen_solve_dispatch.v", "Gen_validate_solver.v"))]
     if not (lab and lab2 and repl and rel):
         ctx.note(f"E2: label generators not available for validation (failed: {[os.path.basename(f) for f in failed]})")
     gen = not (ctx.proof and set(ctx.proof["failed"]) & {"Gen_auto_param_indices", "PyLib", "Auto"})
     h = HEADER_E2.replace("E2_IMPORT", (E2_GEN[0] if gen else "") + "\n" + (E2_LAB[0] if lab else "") + "\n" + (E2_LAB2[0] if lab2 else "") + "\n" + (E2_REP[0] if repl else ""))
     h = h.replace("E2_IMPIDX", E2_IDX[0] if ixd else "").replace("E2_IDXB", E2_IDX[1] if ixd else
                   "Definition ok_idx (c : string * list Z * Z * bool * string * option string * list (string * list Z)) := true.")
+    h = h.replace("E2_IMPSOL", E2_SOL[0] if sol else "").replace("E2_SOLB", E2_SOL[1] if sol else "Definition ok_sol (c : string * bool * bool * option string) := true.")
     h = h.replace("E2_IMPREL", E2_REL[0] if rel else "").replace("E2_RELB", E2_REL[1] if rel else "Definition ok_rel (c : string * sdict * string) := true.")
     h = h.replace("E2_REPL", E2_REP[1] if repl else "Definition ok_rep (c : string * string * string * bool * bool * string) := true.")
     h = h.replace("E2_LB2", E2_LAB2[1] if lab2 else "Definition ok_lab2 (c : dict * list string * list string * list string) := true.")
@@ -766,6 +796,10 @@ def e2_streams(ctx):
         elif kind < 0.7: idx = [rng.randrange(max(n, 1)) for _ in range(n)]
         cases.append(dict(kind="indexed", var=rng.choice(["r", "x_v1"]), idx=idx, n=rng.choice([n, n, n, n + 1, len(idx)]), reduce=rng.random() < 0.5,
                           idx_str=rng.choice(["", "", "source_idx"])))
+    names = ["euler", "heun", "scipy", "diffrax", "Euler", "SCIPY", "heun ", " euler", "scipy_dde", "", "eulerx", "rk4", "Heun", "julia_ode", "scipy\t"]
+    for i in range(200):      # BaseBackend._validate_solver / _solve vs Gen_validate_solver / Gen_solve_dispatch
+        sname = names[i % len(names)] if i < 60 else "".join(rng.choice("eulrhnscipyEH_ ") for _ in range(rng.randint(0, 6)))
+        cases.append(dict(kind="solver", s=sname.replace("\t", " "), dde=rng.random() < 0.4))
     outs = run_impl(ctx, "c18", "impl_slots", cases, nworkers=1)
     sl = [(c, o) for c, o in zip(cases, outs) if c["kind"] == "slots" and "err" not in o]
     lb = [(c, o) for c, o in zip(cases, outs) if c["kind"] == "labels" and "err" not in o]
@@ -784,16 +818,19 @@ def e2_streams(ctx):
     ix = [(c, o) for c, o in zip(cases, outs) if c["kind"] == "indexed" and "err" not in o]
     t5 = clist([f"({cstr(c['var'])}, {clist([cz(i) for i in c['idx']])}, {cz(c['n'])}, {'true' if c['reduce'] else 'false'}, {cstr(c['idx_str'])}, "
                 f"{copt(o['out'], cstr)}, {clist([cpair(cstr(k), clist([cz(i) for i in v])) for k, v in o['rec']])})" for c, o in ix])
+    so_ = [(c, o) for c, o in zip(cases, outs) if c["kind"] == "solver" and "err" not in o]
+    t6 = clist([f"({cstr(c['s'])}, {'true' if c['dde'] else 'false'}, {'true' if o['valid'] else 'false'}, {copt(o['called'], cstr)})" for c, o in so_])
     T = "list (dict * list string * list string * list string)"
     body = (f"Definition s := {t1}.\nDefinition l : {T} := {t2}.\nDefinition l2 : {T} := {labterm(l2)}.\nEval vm_compute in (mismatches ok_gen s).\n"
             "Eval vm_compute in (mismatches ok_closed s).\nEval vm_compute in (mismatches ok_lab l).\nEval vm_compute in (mismatches ok_lab2 l2).\n"
             f"Definition r3 : list (string * string * string * bool * bool * string) := {t3}.\nEval vm_compute in (mismatches ok_rep r3).\n"
             f"Definition r4 : list (string * sdict * string) := {t4}.\nEval vm_compute in (mismatches ok_rel r4).\n"
-            f"Definition r5 : list (string * list Z * Z * bool * string * option string * list (string * list Z)) := {t5}.\nEval vm_compute in (mismatches ok_idx r5).\n")
+            f"Definition r5 : list (string * list Z * Z * bool * string * option string * list (string * list Z)) := {t5}.\nEval vm_compute in (mismatches ok_idx r5).\n"
+            f"Definition r6 : list (string * bool * bool * option string) := {t6}.\nEval vm_compute in (mismatches ok_sol r6).\n")
     ls = parse_nat_lists(coq_eval(ctx, "c18_e2", header_e2(ctx), body))
-    assert len(ls) == 7, ls
+    assert len(ls) == 8, ls
     crashed = [c for c, o in zip(cases, outs) if "err" in o]
-    bad_tr = [sl[i][0] for i in ls[0]] + [lb[i][0] for i in ls[2]] + [l2[i][0] for i in ls[3]] + [rp[i][0] for i in ls[4]] + [rl[i][0] for i in ls[5]] + [ix[i][0] for i in ls[6]] + crashed
+    bad_tr = [sl[i][0] for i in ls[0]] + [lb[i][0] for i in ls[2]] + [l2[i][0] for i in ls[3]] + [rp[i][0] for i in ls[4]] + [rl[i][0] for i in ls[5]] + [ix[i][0] for i in ls[6]] + [so_[i][0] for i in ls[7]] + crashed
     bad_cf = [(sl[i][0], sl[i][1]) for i in ls[1] if i in dflt]
     dup = [c for c, o in lb if len([r for r in o["out"] if r != "t"]) != len({r for r in o["out"] if r != "t"})]
     return cases, bad_tr, bad_cf, dup
